@@ -2,6 +2,7 @@ import ClusterVerif.Lemmas.C04
 import ClusterVerif.Lemmas.C04Faults
 import ClusterVerif.Model.C04Source
 import ClusterVerif.Gen.C04
+import ClusterVerif.Lemmas.C04Rpc
 
 /-!
 # C04 — pin, unpin and update change the pinset exactly as requested, or not at all
@@ -524,6 +525,141 @@ theorem stale_writer_judged_at_write_fails :
   ⟨cCfg, [], { op := .pin 1 cOpts, chosen := [0] }, { op := .pin 1 cOpts, chosen := [1] }, by decide⟩
 
 /-! ### The anchored functions still read as the model was transcribed (regenerated from /repo on every run) -/
+
+/-! ## Round 8 — the RPC layer (rpc_api.go) in front of the model
+
+`Gen.rpcTable` is regenerated from the go/ast of rpc_api.go on every run; `rpcOp` interprets it. -/
+
+/-- the interpreted table is the one the model was read against (a `decide`-style tie: any edit of an entry
+    point's callee, arguments, returned value or error handling changes the table) -/
+theorem gen_rpc_table : Gen.rpcTable = expectedRpcTable := by decide
+
+/-- The RPC layer performs, for every writing call, exactly the Cluster operation the request means:
+    `Pin` hands the whole received pin to `pin()` (no blacklist) — for a plain data pin that IS the user-facing
+    `Pin(cid, options)`; `Unpin` uses the cid only; `PinPath` hands on path AND options; `UnpinPath` the path.
+    Whole outcome (result, pinset, consensus calls, allocation input) under every fault position. -/
+theorem rpc_layer_is_passthrough (call : RpcCall) (op : Op) (h : call.intended = some op) :
+    ∃ op', rpcOp Gen.rpcTable call = some op' ∧
+      ∀ cfg pre ch fault, stepF cfg pre op' ch fault = stepF cfg pre op ch fault := by
+  rw [gen_rpc_table]
+  cases call with
+  | pin p =>
+    refine ⟨.rpcPin p, by simp [rpcOp, findEntry, expectedRpcTable, RpcCall.method, evalArg, calleeOp], ?_⟩
+    intro cfg pre ch fault
+    simp only [RpcCall.intended, Option.some.injEq] at h
+    by_cases hp' : (p == pinWithOpts p.cid p.opts) = true
+    · rw [if_pos hp'] at h; subst h
+      have hp : p = pinWithOpts p.cid p.opts := by simpa using hp'
+      have : step cfg pre (.rpcPin p) ch = step cfg pre (.pin p.cid p.opts) ch := by
+        show pinOp cfg pre p [] ch = pinOp cfg pre (pinWithOpts p.cid p.opts) [] ch
+        rw [← hp]
+      simp only [stepF, this]
+    · rw [if_neg hp'] at h; subst h; rfl
+  | unpin p =>
+    refine ⟨.unpin p.cid, by simp [rpcOp, findEntry, expectedRpcTable, RpcCall.method, evalArg, calleeOp], ?_⟩
+    intro cfg pre ch fault
+    simp only [RpcCall.intended, Option.some.injEq] at h; subst h; rfl
+  | pinPath path o =>
+    refine ⟨.pinPath path o, by simp [rpcOp, findEntry, expectedRpcTable, RpcCall.method, evalArg, calleeOp], ?_⟩
+    intro cfg pre ch fault
+    simp only [RpcCall.intended, Option.some.injEq] at h; subst h; rfl
+  | unpinPath path o =>
+    refine ⟨.unpinPath path, by simp [rpcOp, findEntry, expectedRpcTable, RpcCall.method, evalArg, calleeOp], ?_⟩
+    intro cfg pre ch fault
+    simp only [RpcCall.intended, Option.some.injEq] at h; subst h; rfl
+  | pinGet c => simp [RpcCall.intended] at h
+  | pins => simp [RpcCall.intended] at h
+
+/-- C04 at the RPC boundary: for every writing RPC call, the outcome the interpreted layer + model produce
+    satisfies every clause of the property FOR THE REQUEST AS MEANT (`intended`), e.g. a plain data pin sent
+    to `Cluster.Pin` is held to the option clauses of the user-facing Pin. -/
+theorem rpc_step_holds (cfg : Cfg) (pre : PinMap) (call : RpcCall) (op : Op) (chosen : List Nat)
+    (h : call.intended = some op)
+    (hpre : pre.wfState = true) (hcfg : wfCfg cfg = true) (hop : wfOp op = true)
+    (halloc : ∀ ai, (step cfg pre op chosen).alloc = some ai → C03.allowed ai (.ok chosen) = true) :
+    ∃ out, rpcStep Gen.rpcTable cfg pre call chosen = some out ∧ holds cfg pre op out.res out.post = true := by
+  obtain ⟨op', hop', heq⟩ := rpc_layer_is_passthrough call op h
+  refine ⟨step cfg pre op chosen, ?_, step_holds cfg pre op chosen hpre hcfg hop halloc⟩
+  have := heq cfg pre chosen none
+  simp only [stepF] at this
+  simp [rpcStep, hop', this]
+
+/-- `Unpin` looks at nothing but the cid of the received pin, `UnpinPath` at nothing but the path:
+    options, type, allocations sent along change nothing. -/
+theorem rpc_unpin_uses_cid_only (p q : Pin) (path : Nat) (o o' : Opts) :
+    (p.cid = q.cid → rpcOp Gen.rpcTable (.unpin p) = rpcOp Gen.rpcTable (.unpin q)) ∧
+    rpcOp Gen.rpcTable (.unpinPath path o) = rpcOp Gen.rpcTable (.unpinPath path o') := by
+  rw [gen_rpc_table]
+  refine ⟨fun hc => ?_, ?_⟩ <;>
+    simp_all [rpcOp, findEntry, expectedRpcTable, RpcCall.method, evalArg, calleeOp]
+
+/-- The reading entry points hand back the pinset itself: `PinGet` the stored entry of that cid (error when
+    absent), `Pins` every entry — the observation the property is stated over. -/
+theorem rpc_reads_are_the_pinset (pre : PinMap) (c : Nat) :
+    rpcRead Gen.rpcTable pre (.pinGet c) = some ((pre.get c).map (fun p => [p])) ∧
+    rpcRead Gen.rpcTable pre .pins = some (some pre) := by
+  rw [gen_rpc_table]; exact ⟨rfl, rfl⟩
+
+/-- History form at the RPC boundary: along ANY sequence of writing RPC calls, every call performs the
+    operation it means and its outcome satisfies every clause (composition of `rpc_layer_is_passthrough`
+    with `run_holds`). -/
+theorem rpc_run_holds (cfg : Cfg) (hcfg : wfCfg cfg = true) (calls : List (RpcCall × Op × List Nat))
+    (hint : ∀ c ∈ calls, c.1.intended = some c.2.1) :
+    ∀ (pre : PinMap), pre.wfState = true →
+      (∀ c ∈ calls, wfOpFull c.2.1 = true ∧ wfOp c.2.1 = true) →
+      (∀ (m : PinMap) c, c ∈ calls → ∀ ai, (step cfg m c.2.1 c.2.2).alloc = some ai → C03.allowed ai (.ok c.2.2) = true) →
+      let states := calls.scanl (fun m c => (step cfg m c.2.1 c.2.2).post) pre
+      ∀ k (hk : k < calls.length),
+        ∃ out, rpcStep Gen.rpcTable cfg (states.getD k []) (calls[k]).1 (calls[k]).2.2 = some out ∧
+          out = step cfg (states.getD k []) (calls[k]).2.1 (calls[k]).2.2 ∧
+          holds cfg (states.getD k []) (calls[k]).2.1 out.res out.post = true := by
+  intro pre hpre hops hadm states k hk
+  have hrun := run_holds cfg hcfg (calls.map (fun c => (c.2.1, c.2.2))) pre hpre
+    (by intro oc hoc; obtain ⟨c, hc, rfl⟩ := List.mem_map.1 hoc; exact hops c hc)
+    (by intro m oc hoc ai hai; obtain ⟨c, hc, rfl⟩ := List.mem_map.1 hoc; exact hadm m c hc ai hai)
+    k (by simpa using hk)
+  have hstates : (calls.map (fun c => (c.2.1, c.2.2))).scanl (fun m oc => (step cfg m oc.1 oc.2).post) pre = states :=
+    scanl_map_aux (fun m (oc : Op × List Nat) => (step cfg m oc.1 oc.2).post) (fun c => (c.2.1, c.2.2)) calls pre
+  simp only [hstates, List.getElem_map] at hrun
+  obtain ⟨op', hop', heq⟩ := rpc_layer_is_passthrough (calls[k]).1 (calls[k]).2.1 (hint _ (List.getElem_mem hk))
+  refine ⟨step cfg (states.getD k []) (calls[k]).2.1 (calls[k]).2.2, ?_, rfl, hrun⟩
+  have := heq cfg (states.getD k []) (calls[k]).2.2 none
+  simp only [stepF] at this
+  simp only [rpcStep, hop', Option.map_some, this]
+
+/-- REFUTED alternative: an RPC `PinPath` that does not hand on the request's options stores an entry that does
+    not carry them (witness: a named pin; the real-code counterpart is caught by `pin_stores_requested_options`). -/
+theorem rpc_pinpath_dropping_options_fails :
+    ¬ (∀ cfg pre call op ch out, call.intended = some op → pre.wfState = true → wfCfg cfg = true →
+        rpcStep tblPinPathDropsOptions cfg pre call ch = some out → holds cfg pre op out.res out.post = true) := by
+  intro h
+  have := h { follower := false, defMin := -1, defMax := -1, desc := false, peers := [(0, .valid 1)], paths := [(0, 3)], blocks := [] }
+    [] (.pinPath 0 { noOpts with name := 1 }) (.pinPath 0 { noOpts with name := 1 }) [] _ rfl rfl rfl rfl
+  revert this; decide
+
+/-- REFUTED alternative: an RPC `Pin` that goes through the public `Cluster.Pin(in.Cid, in.PinOptions)` is NOT the
+    layer of the code: it rebuilds a data pin, so the adders' shard pin (type, depth, preset allocations) is
+    stored as something else. -/
+theorem rpc_pin_via_public_pin_differs :
+    ¬ (∀ cfg pre call ch, (rpcStep tblPinViaPublicPin cfg pre call ch).map (·.post) =
+                          (rpcStep expectedRpcTable cfg pre call ch).map (·.post)) := by
+  intro h
+  have := h { follower := false, defMin := 1, defMax := 1, desc := false, peers := [(0, .valid 1), (1, .valid 2)], paths := [], blocks := [] }
+    [] (.pin { cid := 10, type := .shardT, opts := { noOpts with rmin := 1, rmax := 1 }, depth := 1, allocs := [1], ref := none }) [0]
+  revert this; decide
+
+/-- non-vacuity: a REST-style pin (plain data pin, options set) through the RPC `Pin` meets the hypotheses of
+    `rpc_step_holds`, is meant as the user-facing pin, succeeds and stores the options. -/
+private def rpcExCfg : Cfg :=
+  { follower := false, defMin := 2, defMax := 3, desc := false,
+    peers := [(0, .valid 1), (1, .valid 2), (2, .valid 3)], paths := [(0, 3)], blocks := [] }
+private def rpcExOpts : Opts := { noOpts with name := 1, metadata := [(1, 1)] }
+example :
+    (RpcCall.pin (pinWithOpts 3 rpcExOpts)).intended = some (.pin 3 rpcExOpts) ∧
+    ((rpcStep Gen.rpcTable rpcExCfg [] (.pin (pinWithOpts 3 rpcExOpts)) [0, 1]).map (fun out => out.res.isSome)) = some true ∧
+    ((rpcStep Gen.rpcTable rpcExCfg [] (.pinPath 0 rpcExOpts) [0, 1]).map
+        (fun out => holds rpcExCfg [] (.pinPath 0 rpcExOpts) out.res out.post)) = some true ∧
+    rpcOp Gen.rpcTable (.unpin (pinWithOpts 3 rpcExOpts)) = some (.unpin 3) := by decide
 
 theorem gen_source_pinPublic : Gen.pinPublic = Expected.pinPublic := rfl
 theorem gen_source_setupReplicationFactor : Gen.setupReplicationFactor = Expected.setupReplicationFactor := rfl
